@@ -1,5 +1,7 @@
 import CnlProofs.RoundCvt
 import CnlProofs.RoundWrap
+import CnlProofs.ElasticScaled
+import CnlModel.RoundElastic
 /-!
 # C09 — narrowing conversions under a rounding mode are correctly rounded
 
@@ -79,6 +81,26 @@ to its division-free characterisation (`roundShift_isRounded`).
 * `wrapped_widening_exact`, `wrapped_widening_ub_iff`, `wrapped_widening_unsigned_wraps` —
   `eD ≤ eS`: exactly `v · 2^(eS − eD)` under every tag whenever that fits the promoted source type;
   undefined behaviour exactly when the promoted type is signed and the product does not fit.
+
+## representations that are themselves CNL numbers (model `CnlModel.RoundElastic`, final section)
+
+* `wrapped_to_integer_correct`, `wrapped_to_integer_representable`, `wrapped_to_integer_isRounded` —
+  `static_cast<D>(scaled_integer<rounding_integer<S, Tag>, power<e>>)` (`wrapper::operator S()`) for a fundamental
+  integer `D`, `e < 0`: for every source value and every tag the integer the representation's rounding mode selects
+  (the same `roundShift`), under the only hypothesis that the instantiation compiles — corollaries of
+  `wrapped_narrowing_correct` at destination exponent 0.
+* `elastic_plain_truncates` — `elastic_scaled_integer<DS, power<eS>, N>` converted (plain conversion /
+  `native_rounding_tag`) to `k = eD − eS ≤ DS` digits coarser, any digit counts and narrowest type for which the
+  storage types exist: the truncated `v / 2^k` whenever that fits the destination's digits — in particular for
+  `k = 31, 32, 63, 64`, where `2^k` is the most negative number / outside a `k+1`-*bit* divisor type
+  (rests on `ElasticScaled.scaleDown_core`: the divisor's type has `k + 1` *digits*).
+* the nearest / tie_to_pos_inf / neg_inf conversions of elastic_scaled_integer (`RoundElastic.nearest`, `tiesUp`,
+  `negInf`), the static_number → integer route (`toIntStatic`) and the nests of rounding and native overflow layers
+  (`toIntNest`) are covered **by correspondence only** (lines `e2e`, `w2i` of the harness, oracle = the rounded exact
+  value); concrete instances are checked by `decide` below.  A static_number whose rounded value has magnitude above
+  `2^(Digits − k) − 1` is clamped / signalled in the intermediate `static_integer<Digits − k>` although the integer
+  destination holds it: the open class `C11.rounded_value_exceeds_intermediate_digits` of property C11 (the oracle of
+  C09 does not judge those inputs; branch label `c11-intermediate-digits`).
 -/
 namespace Cnl.C09
 open Cnl Cnl.Spec Cnl.Rounding Cnl.RoundCvt Cnl.RoundCvtP
@@ -652,5 +674,88 @@ example : ((0:Int) - (-4)).toNat < (promote u32).digits ∧ u32.InRange 0x0FFFFF
 example : RoundWrap.convert .nrst i32 0 i32 (-4) 2147483647 = .ub .signedOverflow
     ∧ ¬ (promote i32).InRange (2147483647 * 2^((0:Int) - (-4)).toNat)
     ∧ RoundWrap.convert .nrst u32 0 u32 (-4) 0xFFFFFFFF = .ok (u32, 0xFFFFFFF0) := by decide +kernel
+
+/-! ## representations that are themselves CNL numbers -/
+
+open Cnl.Elastic Cnl.ElasticScaled in
+/-- `static_cast<D>(x)` of a `scaled_integer<rounding_integer<S, Tag>, power<e>>`, `e < 0`, for a fundamental integer
+`D` (`wrapper::operator S()`): for **every** source value and every tag, `v / 2^(-e)` rounded by the mode the
+representation carries, converted to `D`.  Hypothesis: the instantiation compiles (`2^(-e)` fits the promoted `S`). -/
+theorem wrapped_to_integer_correct (mode : RdMode) (S D : IntTy) (hS : 1 ≤ S.bits) (e : Int) (v : Int)
+    (h : e < 0) (hk : (0 - e).toNat < (promote S).digits) (hv : S.InRange v) :
+    RoundElastic.toIntWrapped mode S e D v = .ok (D, D.wrap (roundShift (modeOf mode) v (0 - e).toNat)) := by
+  unfold RoundElastic.toIntWrapped
+  rw [wrapped_narrowing_correct mode S D hS e 0 v h hk hv]
+  rfl
+
+/-- … the rounded value itself whenever the destination holds it (ties included, both signs) -/
+theorem wrapped_to_integer_representable (mode : RdMode) (S D : IntTy) (hS : 1 ≤ S.bits) (hD : 1 ≤ D.bits) (e : Int)
+    (v : Int) (h : e < 0) (hk : (0 - e).toNat < (promote S).digits) (hv : S.InRange v)
+    (hfit : D.InRange (roundShift (modeOf mode) v (0 - e).toNat)) :
+    RoundElastic.toIntWrapped mode S e D v = .ok (D, roundShift (modeOf mode) v (0 - e).toNat) := by
+  rw [wrapped_to_integer_correct mode S D hS e v h hk hv, IntTy.wrap_id hD hfit]
+
+/-- … which is the integer the mode selects from the exact source value `v · 2^e` -/
+theorem wrapped_to_integer_isRounded (mode : RdMode) (S D : IntTy) (hS : 1 ≤ S.bits) (hD : 1 ≤ D.bits) (e : Int)
+    (v : Int) (h : e < 0) (hk : (0 - e).toNat < (promote S).digits) (hv : S.InRange v)
+    (hfit : D.InRange (roundShift (modeOf mode) v (0 - e).toNat)) :
+    ∃ w, RoundElastic.toIntWrapped mode S e D v = .ok (D, w) ∧ IsRounded (modeOf mode) v (2^(0 - e).toNat) w :=
+  ⟨_, wrapped_to_integer_representable mode S D hS hD e v h hk hv hfit, Spec.roundShift_isRounded _ v _⟩
+
+-- -1.25 = -5 · 2^-2 and the ties ±1.5 = ±6 · 2^-2 under the four modes (what a conversion of the bare integer,
+-- truncating, gets wrong)
+example : RoundElastic.toIntWrapped .ninf i32 (-2) i32 (-5) = .ok (i32, -2) ∧ RoundElastic.toIntWrapped .nrst i32 (-2) i32 (-6) = .ok (i32, -2)
+    ∧ RoundElastic.toIntWrapped .tpi i32 (-2) i32 (-6) = .ok (i32, -1) ∧ RoundElastic.toIntWrapped .nat i32 (-2) i32 (-6) = .ok (i32, -1)
+    ∧ RoundElastic.toIntWrapped .nrst i32 (-2) i64 6 = .ok (i64, 2) := by decide +kernel
+example : (1 : Nat) ≤ i32.bits ∧ (-2 : Int) < 0 ∧ ((0:Int) - (-2)).toNat < (promote i32).digits ∧ i32.InRange (-5)
+    ∧ i32.InRange (roundShift (modeOf .ninf) (-5) ((0:Int) - (-2)).toNat) := by decide
+-- static_number<12, -4> (nearest): 1.5 -> 2, -0.3125 -> 0; a nest with a native overflow layer
+example : RoundElastic.toIntStatic ⟨.nrst, .und⟩ i32 12 (-4) i32 24 = .ok (i32, 2)
+    ∧ RoundElastic.toIntStatic ⟨.nrst, .und⟩ i32 12 (-4) i32 (-5) = .ok (i32, 0)
+    ∧ RoundElastic.toIntStatic ⟨.ninf, .sat⟩ i32 12 (-4) i32 (-5) = .ok (i32, -1) := by decide +kernel
+
+open Cnl.Elastic Cnl.ElasticScaled in
+/-- plain conversion (`static_cast`, `native_rounding_tag`) of an `elastic_scaled_integer<DS, power<eS>, N>` to a
+resolution `k = eD − eS` digits coarser (`0 < k ≤ DS`), destination digits `DD`: the value truncated toward zero,
+for every digit count, narrowest type and `k` for which the storage types exist — `k = 31, 32, 63, 64` included:
+the divisor `divisor_rep{1} << k` lives in the storage of `elastic_integer<1 + k, N>`, which has more than `k` digits -/
+theorem elastic_plain_truncates (x : ESNum) (DD : Nat) (eD : Int) (hx : x.InRange) (h : x.exp < eD)
+    (hk : (eD - x.exp).toNat ≤ x.digits) {rep drep rrep dst : IntTy}
+    (hRep : repTy x.digits x.narrowest = some rep)
+    (hDv : repTy (1 + (eD - x.exp).toNat) x.narrowest = some drep)
+    (hRr : repTy (x.digits - (eD - x.exp).toNat) x.narrowest = some rrep)
+    (hDst : repTy DD x.narrowest = some dst)
+    (hfit : Fits DD x.narrowest.signed (roundShift .truncate x.value (eD - x.exp).toNat)) :
+    RoundElastic.plain x DD x.narrowest eD
+      = .ok ⟨DD, x.narrowest, eD, roundShift .truncate x.value (eD - x.exp).toNat⟩ := by
+  have ⟨hAs, hAd, hAb⟩ := setDigits_spec hRep
+  have ⟨hDs, hDd, hDb⟩ := setDigits_spec hDst
+  have hx' : Fits x.digits x.narrowest.signed x.value := hx
+  have hxA : rep.InRange x.value := inRange_of_fits (by omega) hx' (fun h => by rw [← hAs]; exact h)
+  have hqD : dst.InRange (x.value.tdiv (2^(eD - x.exp).toNat)) :=
+    inRange_of_fits (by omega) hfit (fun h => by rw [← hDs]; exact h)
+  have hsd := (scaleDown_core x.toE (eD - x.exp).toNat hx hk hRep hDv hRr).1
+  have hne : ¬ (eD ≤ x.exp) := by omega
+  have hc1 : RoundElastic.castE x.toE x.digits x.narrowest = .ok x.toE := by
+    simp only [RoundElastic.castE, ESNum.toE, hRep, Cnl.convert, IntTy.wrap_id (by omega) hxA]
+  have hc2 : RoundElastic.castE ⟨x.digits - (eD - x.exp).toNat, x.narrowest, x.value.tdiv (2^(eD - x.exp).toNat)⟩ DD x.narrowest
+      = .ok ⟨DD, x.narrowest, x.value.tdiv (2^(eD - x.exp).toNat)⟩ := by
+    simp only [RoundElastic.castE, hRr, hDst, Cnl.convert, IntTy.wrap_id (by omega : 1 ≤ dst.bits) hqD]
+  unfold RoundElastic.plain
+  rw [hc1]
+  simp only [Res.bind_ok, hne, ite_false]
+  rw [show scaleDown x.toE (eD - x.exp).toNat = _ from hsd]
+  simp only [Res.bind_ok, ESNum.toE, hc2, Res.pure_eq, ofE, roundShift]
+
+-- the witness of seeded change C09-10: -40 · 2^11 (and a neighbour) at resolution 2^-20, 31 digits coarser
+example : RoundElastic.plain ⟨44, i32, -20, -85899345920⟩ 44 i32 11 = .ok ⟨44, i32, 11, -40⟩
+    ∧ RoundElastic.plain ⟨44, i32, -20, -84825604097⟩ 44 i32 11 = .ok ⟨44, i32, 11, -39⟩ := by decide +kernel
+example : (⟨44, i32, -20, -84825604097⟩ : ElasticScaled.ESNum).InRange ∧ ((11:Int) - (-20)).toNat ≤ 44
+    ∧ Elastic.repTy 44 i32 = some i64 ∧ Elastic.repTy (1 + 31) i32 = some i64 ∧ Elastic.repTy (44 - 31) i32 = some i32 := by decide
+-- the other tags on the same input, and an unsigned 64-digit source 63 digits coarser
+example : RoundElastic.convert (some .nrst) ⟨44, i32, -20, -84825604097⟩ 44 i32 11 = .ok ⟨44, i32, 11, -40⟩
+    ∧ RoundElastic.convert (some .tpi) ⟨44, i32, -20, -84825604097⟩ 44 i32 11 = .ok ⟨44, i32, 11, -40⟩
+    ∧ RoundElastic.convert (some .ninf) ⟨44, i32, -20, -84825604097⟩ 44 i32 11 = .ok ⟨44, i32, 11, -40⟩
+    ∧ RoundElastic.convert none ⟨64, u32, -20, 2^64 - 1⟩ 64 u32 43 = .ok ⟨64, u32, 43, 1⟩ := by decide +kernel
 
 end Cnl.C09
